@@ -115,6 +115,37 @@ pub fn run_c01(ctx: &mut Ctx, replay: Option<&[String]>) {
         outcome_tags(&res, &mut tags);
         ctx.emit(&format!("c01 {} {} {}", imp, sm(&h), calls_str(&calls)), &res.join(" "), !res[0].ends_with(":0"), &tags);
     }
+    // counts beyond 8 bits inside the syndrome test: (a) one check over 256 ... 520 bits almost all of which are received as 1 (its parity is a
+    // count of up to 520 ones), (b) 256 / 512 / 768 disjoint checks ALL of which fail on the input (the number of failed checks is a multiple
+    // of 256), under limit 0 and small limits
+    for (i, imp) in all_impls().into_iter().enumerate() {
+        if !ctx.thorough && i % 3 != (ctx.seed % 3) as usize { continue; }
+        // (a)
+        let n = *rng.pick(&[256usize, 257, 258, 300, 511, 512, 513, 520]);
+        let mut h = SparseMatrix::new(2, n);
+        for c in 0..n { h.insert(0, c); }
+        h.insert(1, 0); h.insert(1, 1);
+        let zeros = *rng.pick(&[0usize, 0, 1, 2]);
+        let mut llrs: Vec<f64> = (0..n).map(|_| -(1.0 + 3.0 * rng.f64_unit())).collect();
+        for z in 0..zeros { llrs[n - 1 - 7 * z] = 2.0 + rng.f64_unit(); }
+        let calls = vec![(*rng.pick(&[0usize, 1, 2]), llrs)];
+        let mut d = imp.build_decoder(h.clone());
+        let res = run_history(&mut d, &calls);
+        let mut tags = vec!["check-over-256..520-bits-received-as-ones"];
+        outcome_tags(&res, &mut tags);
+        ctx.emit(&format!("c01 {} {} {}", imp, sm(&h), calls_str(&calls)), &res.join(" "), true, &tags);
+        // (b)
+        let m = *rng.pick(&[256usize, 256, 512, 768, 255, 257]);
+        let mut h = SparseMatrix::new(m, 2 * m);
+        for j in 0..m { h.insert(j, 2 * j); h.insert(j, 2 * j + 1); }
+        let llrs: Vec<f64> = (0..2 * m).map(|c| if c % 2 == 0 { -(0.5 + rng.f64_unit()) } else { 0.5 + 2.0 * rng.f64_unit() }).collect();
+        let calls = vec![(*rng.pick(&[0usize, 0, 1, 3]), llrs)];
+        let mut d = imp.build_decoder(h.clone());
+        let res = run_history(&mut d, &calls);
+        let mut tags = vec!["256..768-checks-all-failing-on-the-input"];
+        outcome_tags(&res, &mut tags);
+        ctx.emit(&format!("c01 {} {} {}", imp, sm(&h), calls_str(&calls)), &res.join(" "), true, &tags);
+    }
 }
 
 pub fn run_c10(ctx: &mut Ctx, replay: Option<&[String]>) {
@@ -331,6 +362,25 @@ pub fn run_c18(ctx: &mut Ctx, _replay: Option<&[String]>) {
             let calls = gen_calls(&mut rng, &h, 2, &mut tags);
             let mut d = imp.build_decoder(h.clone());
             let built = run_history(&mut d, &calls);
+            let direct = match expected_decoder(&name, h.clone()) {
+                Some(mut e) => run_history(&mut e, &calls),
+                None => vec!["no-expected-decoder".to_string()],
+            };
+            ctx.emit(&format!("c18 beh {} {} {}", name, sm(&h), calls_str(&calls)),
+                &format!("{} | {}", built.join(" "), direct.join(" ")), true, &tags);
+        }
+        // ... a bit taking part in 128 ... 257 checks (the largest variable degrees the 8-bit accumulators hold): building through the factory
+        // must neither refuse nor differ from the generic decoder
+        for _ in 0..ctx.scale(2, 40) {
+            let w = *rng.pick(&[128usize, 129, 200, 255, 256, 257]);
+            let nc = rng.range(3, 6);
+            let mut h = SparseMatrix::new(w, nc);
+            for r in 0..w { h.insert(r, 0); h.insert(r, 1 + rng.below(nc - 1)); }
+            let mut tags = vec!["one-variable-in-128..257-checks", "behaviour-heavy-column"];
+            let calls = gen_calls(&mut rng, &h, 2, &mut tags);
+            let (imp2, h2, calls2) = (imp, h.clone(), calls.clone());
+            let built = crate::guarded(move || { let mut d = imp2.build_decoder(h2); run_history(&mut d, &calls2) })
+                .unwrap_or_else(|_| vec!["factory-panicked".to_string()]);
             let direct = match expected_decoder(&name, h.clone()) {
                 Some(mut e) => run_history(&mut e, &calls),
                 None => vec!["no-expected-decoder".to_string()],
